@@ -364,7 +364,7 @@ class FactoryRun:
                           out_edge_selection=self._pol(nid, "out", n.get("out_sel", "FIRST_AVAILABLE")))
         elif t == "splitter":
             obj = Splitter(env, nid, node_setup_time=n.get("setup", 0), processing_delay=self._val(nid, "pdelay", n.get("pdelay", 0)),
-                           blocking=n.get("blocking", True),
+                           blocking=n.get("blocking", True), split_quantity=n.get("split_quantity"),      # documented as ignored in mode UNPACK
                            in_edge_selection=self._pol(nid, "in", n.get("in_sel", "FIRST_AVAILABLE")),
                            out_edge_selection=self._pol(nid, "out", n.get("out_sel", "FIRST_AVAILABLE")))
         elif t == "combiner":
